@@ -259,6 +259,13 @@ FLAGS = [
     # C17: the premise "default descriptor caching".  Hopen assigns file_rec->cache exactly once, and unconditionally from default_cache (the
     # first-open branch, whatever the access mode); the branch for a record that is already in use does not touch it
     ("HOPEN_CACHE_IS_DEFAULT", "hdf/src/hfile.c", "Hopen", r"^(?!(?:.*file_rec->cache\s*=(?!=)){2}).*[;{}]\s*file_rec->cache\s*=\s*default_cache\s*;"),
+    # C13: what a FAILED HTPstart inside Hopen does to the use count of the DD atom group (the group every access element of every open
+    # file resolves its DD id through).  HTPstart takes the group (HAinit_group(DDGROUP)) BEFORE the loop that reads the DD blocks ...
+    ("HTPSTART_TAKES_DDGROUP_FIRST", "hdf/src/hfiledd.c", "HTPstart", r"HAinit_group\s*\(\s*DDGROUP\b.*\bfor\s*\(\s*;\s*;\s*\)"),
+    # ... HTPstart gives it back on its own failure path ...
+    ("HTPSTART_FAILURE_RELEASES_DDGROUP", "hdf/src/hfiledd.c", "HTPstart", r"\bdone\s*:.*HAdestroy_group\s*\(\s*DDGROUP\b"),
+    # ... or Hopen ends the DD list (HTPend: HAdestroy_group(DDGROUP)) of a file whose HTPstart failed
+    ("HOPEN_ENDS_DDLIST_OF_FAILED_START", "hdf/src/hfile.c", "Hopen", r"HTPstart\s*\(\s*file_rec\s*\)\s*==\s*FAIL\s*\)\s*\{[^}]*\b(HTPend|HAdestroy_group)\s*\("),
     ("HOPEN_REOPEN_SETS_ACCESS", "hdf/src/hfile.c", "Hopen", r"file_rec->file\s*=\s*f;[^}]*file_rec->access\s*(\|=|=)[^;]*DFACC_WRITE|file_rec->access\s*(\|=|=)[^;}]*(DFACC_WRITE|acc_mode)[^}]*file_rec->file\s*=\s*f;"),
 ]
 
